@@ -268,3 +268,54 @@ func VerifC06Refused() {
 }
 
 var _ = store.ErrInvalidNonce
+
+// VerifC04Reuse: a request is accepted; then its SIGNATURE is presented again with something changed - another
+// parameter, with the old or with a fresh nonce. A signature speaks for exactly the request it was made for,
+// also when it is the one the endpoint accepted last: the second request is refused and changes nothing.
+func VerifC04Reuse() {
+	w := verifEndpointWorld(true)
+	svc := &pool.VerifHost{Name: "conn", Addr: "192.0.2.9:1"}
+	ctx := jsonrpc2.VerifCtxWithService(context.Background(), svc)
+	node, other := string(w.nodes[0]), string(w.nodes[1])
+	wal := string(w.wallets[0])
+	nonce := pool.VerifFreshNonce()
+	ep := verifapi.Choose("endpoint", 3)
+	var sig string
+	var err error
+	switch ep {
+	case 0:
+		sig = sigs.SignFor(wal, "pool_addNode", nonce, node)
+		err = w.pay.AddNode(ctx, sig, wal, nonce, node)
+	case 1:
+		req := pool.UpdateRequest{PeerInfo: pool.VerifPeerInfos(other), BlockNumber: 7}
+		sig = sigs.SignFor(node, "vipnode_update", nonce, req)
+		_, err = w.p.Update(ctx, sig, node, nonce, req)
+	default:
+		req := pool.PeerRequest{Num: 1}
+		sig = sigs.SignFor(node, "vipnode_peer", nonce, req)
+		_, err = w.p.Peer(ctx, sig, node, nonce, req)
+	}
+	if err != nil {
+		return // (the honest request may be refused for reasons of its own, e.g. no hosts: nothing to reuse)
+	}
+	verifapi.Reach("c04.reuse.accepted")
+	nonce2 := nonce
+	if verifapi.Bool("fresh-nonce") {
+		nonce2 = pool.VerifFreshNonce()
+	}
+	before := verifapi.Snapshot(w.state())
+	calls := w.hostCalls() + len(svc.Calls)
+	switch ep {
+	case 0:
+		err = w.pay.AddNode(ctx, sig, wal, nonce2, other)
+	case 1:
+		req := pool.UpdateRequest{PeerInfo: pool.VerifPeerInfos(other), BlockNumber: 8}
+		_, err = w.p.Update(ctx, sig, node, nonce2, req)
+	default:
+		req := pool.PeerRequest{Num: 2}
+		_, err = w.p.Peer(ctx, sig, node, nonce2, req)
+	}
+	verifapi.Reach("c04.reuse")
+	verifapi.Assert(err != nil, "c04.reuse.altered-request-under-an-accepted-signature-refused")
+	verifapi.Assert(verifapi.Same(before, verifapi.Snapshot(w.state())) && w.hostCalls()+len(svc.Calls) == calls, "c04.reuse.altered-request-has-no-effect")
+}
